@@ -4,6 +4,7 @@ From Coq Require Import List String Ascii ZArith Bool Permutation Sorting.Sorted
 From SV Require Import Lib.Str Model.Types Model.Api Model.Back Model.Layout Proofs.GenProofs Proofs.MoreProofs.
 
 (* writing the module stubs again over the tree they produced leaves every path with the same content *)
+From SV Require Import Model.Layout Proofs.PlaceholderProofs.
 Theorem C16_module_stub_rerun_idempotent : forall (data : list entry) fs p,
   let write := fold_left (fun fs e => fs_write (entry_path e) (let '(_, _, t, _) := e in t) fs) data in
   fs_lookup p (write (write fs)) = fs_lookup p (write fs).
@@ -20,6 +21,13 @@ Proof.
   rewrite (Proofs.BackProofs.type_string_is_tstr _ _ _ _ _ _ _ H1), (Proofs.BackProofs.type_string_is_tstr _ _ _ _ _ _ _ H2). reflexivity.
 Qed.
 
+(* the placeholder stubs of other libraries' classes do not depend on what the output directory held before - the files of an
+   earlier run included: a second run into the same directory leaves them with the same contents *)
+Theorem C16_placeholder_files_independent_of_initial_tree : forall nc cs fsa fsb fa ca fb cb,
+  well_formed cs -> go_outside nc cs (fsa, []) = Ok (fa, ca) -> go_outside nc cs (fsb, []) = Ok (fb, cb) ->
+  forall c, In c cs -> fs_lookup (file_of c) fa = fs_lookup (file_of c) fb.
+Proof. exact placeholder_files_independent_of_initial_tree. Qed.
 Print Assumptions C16_module_stub_rerun_idempotent.
 Print Assumptions C16_write_idempotent.
 Print Assumptions C16_type_rendering_state_free.
+Print Assumptions C16_placeholder_files_independent_of_initial_tree.
